@@ -136,6 +136,14 @@ impl KBucket {
     }
 
     fn add_node(&mut self, node: NodeInfo) -> Result<()> {
+        // A peer that is already listed is only refreshed: its entry moves to the tail
+        // (most recently seen) and keeps the address it was admitted under.
+        if let Some(pos) = self.nodes.iter().position(|n| n.id == node.id) {
+            let mut existing = self.nodes.remove(pos);
+            existing.last_seen = node.last_seen;
+            self.nodes.push(existing);
+            return Ok(());
+        }
         if self.nodes.len() < self.max_size {
             self.nodes.push(node);
             Ok(())
@@ -179,8 +187,21 @@ impl KademliaRoutingTable {
     }
 
     fn add_node(&mut self, node: NodeInfo) -> Result<()> {
+        if node.id == self.node_id {
+            return Err(anyhow!(
+                "Refusing to list the local node in its own routing table"
+            ));
+        }
         let bucket_index = self.get_bucket_index(&node.id);
         self.buckets[bucket_index].add_node(node)
+    }
+
+    fn contains(&self, node_id: &NodeId) -> bool {
+        let bucket_index = self.get_bucket_index(node_id);
+        self.buckets[bucket_index]
+            .get_nodes()
+            .iter()
+            .any(|n| &n.id == node_id)
     }
 
     fn remove_node(&mut self, node_id: &NodeId) {
@@ -1314,6 +1335,15 @@ impl DhtCoreEngine {
 
     /// Add a node to the DHT with security checks
     pub async fn add_node(&mut self, node: NodeInfo) -> Result<()> {
+        // 0. The local node is never listed and a peer that is already listed is only
+        //    refreshed: neither may pass (and be charged by) the admission checks again.
+        {
+            let mut routing = self.routing_table.write().await;
+            if node.id == self.node_id || routing.contains(&node.id) {
+                return routing.add_node(node);
+            }
+        }
+
         // 1. Security Check: Close Group Validator
         {
             // Active validation query
